@@ -1,7 +1,7 @@
 SPECIFICATION Spec
 CONSTANTS
   MaxDims = 2
-  MaxSteps = 3
+  MaxSteps = 4
   Acts = {"Set", "Sampled", "Range", "Frame", "Delete", "Setters", "Reopen"}
   ArrRank = 2
   Numeric = TRUE
